@@ -12,6 +12,7 @@ CONSTANTS
   AllowWrFail = TRUE
   AllowCancel = FALSE
   ChanCap1 = TRUE
+  SendErrToRegistered = TRUE
   KeepSlotOnCancel = TRUE
 INVARIANTS Inv_C03_DistinctIds
 CHECK_DEADLOCK TRUE
